@@ -233,6 +233,11 @@ func (x *Exec) applyContract(c *Contract, fn *ssa.Function, sig *types.Signature
 	for _, cl := range c.clauses("ensures") {
 		x.assumeHere(x.evalBool(post, cl.expr()))
 	}
+	// "assume" clauses: facts the callee's own verification does NOT establish (listed as assumptions in the evidence)
+	for _, cl := range c.clauses("assume") {
+		x.assumeHere(x.evalBool(post, cl.expr()))
+		x.assumed["ASSUME "+c.Target+": "+cl.Text] = true
+	}
 	if c.Attrs["noreturn"] {
 		x.st.guard = tFalse
 	}
@@ -263,6 +268,30 @@ type lvLoc struct {
 // lvalueLocs resolves a modifies item to heap locations (evaluated in env.st).
 func (x *Exec) lvalueLocs(env *SpecEnv, e ast.Expr) []lvLoc {
 	var out []lvLoc
+	// modset abbreviation: name(arg) or pkg.name(arg)
+	if ce, ok := e.(*ast.CallExpr); ok && len(ce.Args) == 1 {
+		var ms *SpecFn
+		switch f := ce.Fun.(type) {
+		case *ast.Ident:
+			ms = x.eng.specs.Fns[env.pkgPath+"::modset:"+f.Name]
+		case *ast.SelectorExpr:
+			if id, ok := f.X.(*ast.Ident); ok {
+				if p := x.importedPkg(env.pkgPath, id.Name); p != nil {
+					ms = x.eng.specs.Fns[p.Path()+"::modset:"+f.Sel.Name]
+				}
+			}
+		}
+		if ms != nil {
+			inner := &SpecEnv{x: x, vars: map[string]Val{}, st: env.st, old: env.old, pkgPath: ms.Pkg}
+			inner.vars[ms.Params[0].Name] = x.evalExpr(env, ce.Args[0])
+			for _, part := range splitTop(ms.Body, ',') {
+				if strings.TrimSpace(part) != "" {
+					out = append(out, x.lvalueLocs(inner, parseExpr(part, ms.Where))...)
+				}
+			}
+			return out
+		}
+	}
 	switch e := e.(type) {
 	case *ast.ParenExpr:
 		return x.lvalueLocs(env, e.X)
@@ -299,6 +328,15 @@ func (x *Exec) lvalueLocs(env *SpecEnv, e ast.Expr) []lvLoc {
 			p := x.ptrOf(x.evalExpr(env, e.Args[0]))
 			for _, lf := range leavesOf(pointeeType(p)) {
 				out = append(out, lvLoc{loc: x.locOf(p, lf), leafSort: lf.sort})
+			}
+			for _, g := range x.eng.specs.Ghosts {
+				gt := x.resolveType(g.Pkg, parseExpr(g.Type, "ghost"))
+				if gt != nil && types.Identical(gt, pointeeType(p)) {
+					gp := x.fieldAddr(env, p, g.Name)
+					for _, lf := range leavesOf(pointeeType(gp)) {
+						out = append(out, lvLoc{loc: x.locOf(gp, lf), leafSort: lf.sort})
+					}
+				}
 			}
 			return out
 		}
